@@ -75,6 +75,16 @@ def enc(v):
     return {"$": "repr", "v": repr(v)}
 
 
+class LegacySeq:
+    """iterable only through the old sequence protocol (__getitem__ with 0, 1, 2, ... until IndexError): no __iter__, no __len__"""
+
+    def __init__(self, items):
+        self._items = list(items)
+
+    def __getitem__(self, i):
+        return self._items[i]
+
+
 def dec(s, resolve=None):
     """spec -> fresh Python value. `resolve(spec)` handles driver-specific {"$":"ref"...}."""
     if s is None or isinstance(s, (bool, int, str)):
@@ -105,6 +115,8 @@ def dec(s, resolve=None):
         return (x for x in items)
     if tag == "range":
         return range(*s["v"])
+    if tag == "legacyseq":
+        return LegacySeq([dec(x, resolve) for x in s["v"]])
     if tag == "dv":
         # a ready-made digest value: hash(salt + secret) with a salt of the given length (any length: only the
         # library's own hashing cuts salts to the digest size)
